@@ -151,8 +151,8 @@ def judge(res, W, run, sc, Ssim, tag, failure, second=False, dispatcher=None):
     left = run.open_transports()
     if left:
         bad("transport-left-open", f"{len(left)} transport(s) still open when the run ended")
-    live = run.live_ping_actors()
-    if live:
+    live = getattr(run, "live_at_return", None) or run.live_ping_actors()
+    if live and dispatcher is None:
         bad("ping-thread-alive", f"ping thread(s) {live} alive when the run ended")
     if run.app.sock is not None:
         bad("app-sock-not-cleared", f"app.sock is {run.app.sock!r} after the run")
